@@ -96,11 +96,20 @@ def check(eng, R, rule, f, label):
             ok, why = _predicate_method(eng, m, graphs)
             R.ob(rule, "%s:selection independent of the parameters" % label, ok, (m.file, m.lineno), "%s (selects the pointwise cost function in %s): %s" % (m.qualname, f.qualname, why))
         else:
-            R.ob(rule, "%s:selection" % label, False, (f.file, test.lineno), "%s selects the pointwise cost function by %s: not understood as a no-correlation predicate" % (f.qualname, _txt(pred)))
+            # the predicate written in place (a single-expression predicate method is written out by the canonical program): judged like the body `return <pred>`
+            fake = ast.FunctionDef(name="_predicate", args=ast.arguments(posonlyargs=[], args=[ast.arg(arg="self")], kwonlyargs=[], kw_defaults=[], defaults=[]),
+                                   body=[ast.Return(value=pred)], decorator_list=[], lineno=getattr(test, "lineno", f.lineno), col_offset=0)
+            ast.fix_missing_locations(fake)
+            ok, why = _predicate_node(fake, graphs)
+            R.ob(rule, "%s:selection independent of the parameters" % label, ok, (f.file, getattr(test, "lineno", f.lineno)),
+                 "%s selects the pointwise cost function by %s: %s" % (f.qualname, _txt(pred)[:160], why))
 
 
 def _predicate_method(eng, m, graphs):
-    node = m.node
+    return _predicate_node(m.node, graphs)
+
+
+def _predicate_node(node, graphs):
     # (a) no parameter-dependent property read
     for x in ast.walk(node):
         a = self_attr(x) if isinstance(x, ast.Attribute) else None
